@@ -34,6 +34,8 @@ DEPTH = {"quick": {"empty": 5, "armed51": 4, "mixed": 4}, "thorough": {"empty": 
 SCRIPTED = {"quick": 1, "thorough": 2}
 CAP = 4
 SCRIPT_IDS = tuple(range(1, 12))   # _timers.SCRIPTS[1..11]
+# in the two big initial states a scripted call is created with delay 0 and aims at the newest target
+BIG_SCRIPT_IDS = (1, 3, 5, 7, 9, 11)
 
 # mixed initial state: creation index -> time of the 10 live calls; the other 60 get 1 + (7 i mod 12)
 LIVE = {5: 6, 11: 3, 17: 5, 23: 2, 29: 4, 35: 7, 41: 3, 47: 5, 68: 9, 69: 10}
@@ -86,12 +88,18 @@ def _initial(init, prefix):
 SPLIT = 1
 
 
+def _enabled(init, tier):
+    if init == "empty":
+        return lambda tm: tm.enabled(CAP, SCRIPTED[tier], SCRIPT_IDS)
+    return lambda tm: tm.enabled(CAP, SCRIPTED[tier], BIG_SCRIPT_IDS, scripted_delays=(0,))
+
+
 def shards(tier, seed):
     out = []
     for init in INITS:
         out.append(["pre", init, []])
         front = []
-        en = lambda tm: tm.enabled(CAP, SCRIPTED[tier], SCRIPT_IDS)
+        en = _enabled(init, tier)
         bfs(_initial(init, []), apply, en, canon, lambda st, h: (), SPLIT,
             on_state=lambda st, h: front.append([list(e) for e in h]) if len(h) == SPLIT else None)
         out.extend(["sub", init, h] for h in front)
@@ -102,7 +110,7 @@ def run_shard(shard, tier, seed):
     mode, init, prefix = shard[0], shard[1], [tuple(e) for e in shard[2]]
     depth = SPLIT if mode == "pre" else DEPTH[tier][init] - SPLIT
     stats = Stats()
-    en = lambda tm: tm.enabled(CAP, SCRIPTED[tier], SCRIPT_IDS)
+    en = _enabled(init, tier)
 
     def inv(tm, hist):
         fl = tm.last_flags
